@@ -263,6 +263,13 @@ def check_day(ctx, day, walk, rng, heavy, mq_all):
             st_, g_ = ctx.call(dt_bump, tv_, tenor_)
             if st_ != 'ok' or g_ != ref_:
                 ctx.fail('start_flavours', 'dt_bump(%s as %s, %r) = %s %r but from the datetime it is %s' % (t, fl_, tenor_, st_, g_, ref_), case=dict(term, tenor=str(tenor_), flavour=fl_))
+    # an explicit '+' is the same bump as no sign
+    for tenor_ in ('+%dd' % rng.randint(1, 40), '+%db' % rng.randint(1, 30), '+%dm' % rng.randint(1, 14), '1y+3m', '-3m+2d', '+1w-2d', '+2h'):
+        mon['explicit_plus_sign'] += 1
+        st_, g_ = ctx.call(dt_bump, t, tenor_)
+        ref_ = dt_bump(t, tenor_.replace('+', ''))
+        if st_ != 'ok' or g_ != ref_:
+            ctx.fail('explicit_plus_sign', 'dt_bump(%s, %r) = %s %r but %r gives %s' % (t, tenor_, st_, g_, tenor_.replace('+', ''), ref_), case=dict(term, tenor=tenor_))
     named = {'spot': 0, 'on': 1, 'o/n': 1, 'tn': 2, 't/n': 2, 'sn': 3, 's/n': 3}
     k = rng.choice(list(named))
     mon['named_tenors'] += 1
